@@ -9,6 +9,7 @@ method when called is not decided.
 """
 import ast
 
+from .. import totality
 from ..dataflow import defs
 from ..lattice import ir_family, reaching_classes
 from ..model import call_name, own_nodes, unparse
@@ -34,10 +35,26 @@ EXPLANATION = (
     'with f exactly for upload style; `return None` exactly for a Void result; `import warnings` '
     'is emitted when any namespace has a deprecated route; literal defaults are rendered by '
     'pprint/repr. R4: remove_aliases_from_api strips aliases from fields and route types and '
-    'clears the alias registries together.')
+    'clears the alias registries together.'
+    " R5 (generator totality, stonelint.totality): python_client completes for every route in the property's domain -- IR attribute reads defined for every reaching class (e.g. the error type's fields), raises/asserts unreachable or recorded preconditions.")
 ASSUMPTIONS = ['C02-R5 (required fields precede optional ones in all_fields) is checked under C02',
                'pprint.pformat of a str/int/float/bool/None is a valid Python literal of the value']
 
+
+TOTALITY_PRECONDITIONS = {
+    ('backends.python_helpers.class_name_for_annotation_type',
+     'assert isinstance(annotation_type, AnnotationType)'):
+        'not reached from python_client (annotation classes belong to python_types)',
+    ('backends.python_client.PythonClientBackend._generate_route_method_decl', 'raise AssertionError'):
+        'C14 quantifies over routes whose argument is a struct, union or Void; python_client '
+        'refuses every other argument type by design',
+    ('backends.python_client.PythonClientBackend._generate_route_helper', 'raise AssertionError'):
+        'C14 quantifies over routes whose argument is a struct, union or Void',
+    ('backends.python_client.PythonClientBackend._generate_route_helper',
+     'assert response_binary_body'):
+        'download_to_file=True is passed only under route.attrs.get(\'style\') == \'download\' '
+        '(both call sites, checked by C14-R5 call-site rule below)',
+}
 
 def run(pm, ctx):
     for r, t in (('C14-R1', 'signature order = construction order = constructor order; default '
@@ -296,6 +313,9 @@ def run(pm, ctx):
               'python_client does not preserve aliases', pcb.module.relpath,
               msg='python_client now preserves aliases but has no alias handling',
               key='C14-R4|preserve')
+    totality.run_pack(pm, ctx, 'C14-R5', ('stone.backends.python_client',
+                                              'stone.backends.python_helpers'),
+                      False, 'python_client', TOTALITY_PRECONDITIONS, (10, 3, 0))
 
 
 def _parents_until(node, stop):
